@@ -3,18 +3,20 @@
 // Harness for metrics.MultiMetrics — the store read back by Get (property C33).
 //
 // case header:  children=<0|1|2>   (0: no child backend, 1: a NullMetrics child, 2: NullMetrics + MockMetrics)
-// ops (metric names are percent-encoded tokens, values are decimal integers):
+// ops (metric names are percent-encoded tokens; <n> is a decimal int64, <v> a float token):
 //
 //	register <name> <counter|gauge|histogram|updown>
 //	increment <name> | count <name> <n> | gauge <name> <v> | histogram <name> <v>
 //	up <name> | down <name> | store <name> <v>
-//	get <name>                     obs: none | some:<integer value of the float64>
+//	get <name>                     obs: none | some:<float token>
 //	conc <g> <item>,<item>,…       item = <i|c|u|d>*<reps>*<n>*<name>: the multiset of calls
 //	                               (Increment / Count n / Up / Down, each <reps> times) is dealt
 //	                               round-robin to <g> goroutines that start calling together (spin barrier); obs: done
 //
-// Gauge and Store take float64 in Go; the generator only produces integers of magnitude ≤ 2^53,
-// which float64 represents exactly, so values can be compared as integers.
+// Gauge, Histogram and Store take float64 in Go.  Values travel as canonical tokens (fmtFloat):
+// nan, +inf, -inf, an exact decimal integer, or x<Float64bits in hex> — the generator produces
+// ordinary integers plus NaN, ±Inf, -0, ±MaxFloat64, subnormals, fractions and integers beyond
+// 2^53; tokens are compared as text, never as floats.
 package main
 
 import (
@@ -68,20 +70,33 @@ func genCount(r *kit.Rng) int64 {
 	return int64(r.Intn(1_000_000_000))
 }
 
-func genValue(r *kit.Rng) int64 {
-	switch r.Pick(55, 8, 12, 25) {
+// floatEdges: values a float64 parameter can carry besides ordinary integers.
+var floatEdges = []float64{
+	math.NaN(), math.Inf(1), math.Inf(-1), math.Copysign(0, -1),
+	math.MaxFloat64, -math.MaxFloat64, math.SmallestNonzeroFloat64, -math.SmallestNonzeroFloat64,
+	2.2250738585072014e-308 /* smallest normal */, 0.5, -1.5, 0.1, 1e-300, 1e300,
+	float64(two53 + 2), float64(int64(1) << 60), -float64(int64(1) << 62), 1e18, 18446744073709551616.0,
+}
+
+// genValue yields the canonical token (see fmtFloat) of a float64 for Gauge / Histogram / Store.
+func genValue(r *kit.Rng) string {
+	var v int64
+	switch r.Pick(46, 7, 10, 21, 16) {
 	case 0:
-		return int64(r.Intn(101)) - 50
+		v = int64(r.Intn(101)) - 50
 	case 1:
-		return 0
+		v = 0
 	case 2:
-		return []int64{two53, -two53, two53 - 1, -(two53 - 1), 1, -1}[r.Intn(6)]
+		v = []int64{two53, -two53, two53 - 1, -(two53 - 1), 1, -1}[r.Intn(6)]
+	case 3:
+		v = int64(r.Intn(1_000_000_000)) * int64(1+r.Intn(1000))
+		if r.Chance(30) {
+			v = -v
+		}
+	case 4: // non-finite, signed zero, extremes, subnormals, fractions, integers beyond 2^53
+		return fmtFloat(floatEdges[r.Intn(len(floatEdges))])
 	}
-	v := int64(r.Intn(1_000_000_000)) * int64(1+r.Intn(1000))
-	if r.Chance(30) {
-		v = -v
-	}
-	return v
+	return fmtFloat(float64(v))
 }
 
 func (comp) Gen(r *kit.Rng, maxLen int, tier string) kit.Case {
@@ -129,9 +144,9 @@ func (comp) Gen(r *kit.Rng, maxLen int, tier string) kit.Case {
 			}
 			return fmt.Sprintf("count %s %d", names[i], genCount(r))
 		case 1:
-			return fmt.Sprintf("gauge %s %d", names[i], genValue(r))
+			return fmt.Sprintf("gauge %s %s", names[i], genValue(r))
 		case 2:
-			return fmt.Sprintf("histogram %s %d", names[i], genValue(r))
+			return fmt.Sprintf("histogram %s %s", names[i], genValue(r))
 		}
 		if r.Chance(55) {
 			return "up " + names[i]
@@ -151,7 +166,7 @@ func (comp) Gen(r *kit.Rng, maxLen int, tier string) kit.Case {
 		case 1:
 			ops = append(ops, record(i))
 		case 2:
-			ops = append(ops, fmt.Sprintf("store %s %d", names[i], genValue(r)))
+			ops = append(ops, fmt.Sprintf("store %s %s", names[i], genValue(r)))
 		case 3:
 			ops = append(ops, "get "+names[i])
 		case 4: // concurrent burst, then read everything back at quiescence
@@ -206,15 +221,45 @@ func (comp) NewCase(h []string) kit.Runner {
 	return &runner{m: m}
 }
 
-// fmtFloat prints an integer-valued float64 as the exact integer it denotes.
+// fmtFloat renders a float64 as a canonical token, so that no float comparison is needed
+// downstream: nan | +inf | -inf | the exact decimal integer (finite integer-valued, not -0) |
+// x<16 hex digits of math.Float64bits> (everything else: fractions, subnormals, -0).
 func fmtFloat(v float64) string {
-	if math.IsNaN(v) || math.IsInf(v, 0) || v != math.Trunc(v) {
-		return fmt.Sprintf("nonint:%016x", math.Float64bits(v))
-	}
-	if v == 0 {
+	switch {
+	case math.IsNaN(v):
+		return "nan"
+	case math.IsInf(v, 1):
+		return "+inf"
+	case math.IsInf(v, -1):
+		return "-inf"
+	case v == 0 && !math.Signbit(v):
 		return "0"
+	case v != 0 && v == math.Trunc(v):
+		return new(big.Float).SetFloat64(v).Text('f', 0)
 	}
-	return new(big.Float).SetFloat64(v).Text('f', 0)
+	return fmt.Sprintf("x%016x", math.Float64bits(v))
+}
+
+// parseFloat is the inverse of fmtFloat (an integer token must be exactly a float64).
+func parseFloat(s string) (float64, bool) {
+	switch s {
+	case "nan":
+		return math.NaN(), true
+	case "+inf":
+		return math.Inf(1), true
+	case "-inf":
+		return math.Inf(-1), true
+	}
+	if len(s) == 17 && s[0] == 'x' {
+		b, err := strconv.ParseUint(s[1:], 16, 64)
+		return math.Float64frombits(b), err == nil
+	}
+	f, _, err := big.ParseFloat(s, 10, 2048, big.ToNearestEven)
+	if err != nil || !f.IsInt() {
+		return 0, false
+	}
+	v, acc := f.Float64()
+	return v, acc == big.Exact
 }
 
 func (r *runner) Do(op []string) (string, bool) {
@@ -251,18 +296,24 @@ func (r *runner) Do(op []string) (string, bool) {
 		r.m.Count(name, n)
 		return "", false
 	case "gauge":
-		v, ok := i64(2)
+		if len(op) != 3 {
+			return "bad-op", true
+		}
+		v, ok := parseFloat(op[2])
 		if !ok {
 			return "bad-op", true
 		}
-		r.m.Gauge(name, float64(v))
+		r.m.Gauge(name, v)
 		return "", false
 	case "histogram":
-		v, ok := i64(2)
+		if len(op) != 3 {
+			return "bad-op", true
+		}
+		v, ok := parseFloat(op[2])
 		if !ok {
 			return "bad-op", true
 		}
-		r.m.Histogram(name, float64(v))
+		r.m.Histogram(name, v)
 		return "", false
 	case "up":
 		r.m.Up(name)
@@ -271,11 +322,14 @@ func (r *runner) Do(op []string) (string, bool) {
 		r.m.Down(name)
 		return "", false
 	case "store":
-		v, ok := i64(2)
+		if len(op) != 3 {
+			return "bad-op", true
+		}
+		v, ok := parseFloat(op[2])
 		if !ok {
 			return "bad-op", true
 		}
-		r.m.Store(name, float64(v))
+		r.m.Store(name, v)
 		return "", false
 	case "get":
 		v, ok := r.m.Get(name)
